@@ -212,4 +212,406 @@ theorem linv_run (cfg : Cfg) (s : St) (sched : List Tid) (h : LInv s) : LInv (ru
     | none => exact h
     | some s' => exact linv_step cfg s s' t h hs
 
+/-! ### no lost wake-up: the consumer waiting for data on ccond -/
+
+/-- the producer has stored `pseq` and not yet broadcast ccond -/
+def pendC : Pc → Bool
+  | .w43 _ | .w44 _ | .c51 _ | .c52 _ => true
+  | _ => false
+/-- a closer has stored `done` and not yet broadcast ccond -/
+def pendCd : Pc → Bool
+  | .x11 | .x12 | .x13 | .x14 | .x15 => true
+  | _ => false
+
+/-- the consumer is inside a wait loop: it has found no data (stage 1), has also found the ring
+open (stage 2), or is parked in `ccond.Wait` -/
+def cStage : Pc → Nat
+  | .r75 _ _ | .p84 _ _ _ => 1
+  | .r77 _ _ | .p86 _ _ _ | .r77w _ _ | .p86w _ _ _ => 2
+  | _ => 0
+def cParked : Pc → Bool
+  | .r77w _ _ | .p86w _ _ _ => true
+  | _ => false
+/-- the wait condition the consumer tested, evaluated on the producer cursor `pseq` -/
+def noDataAt (pseq : Nat) : Pc → Prop
+  | .r75 _ cpos | .r77 _ cpos | .r77w _ cpos => pseq ≤ cpos
+  | .p84 w n cpos | .p86 w n cpos | .p86w w n cpos => mustWait w n cpos pseq = true
+  | _ => True
+
+/-- what must hold while the consumer is in a wait loop and not yet woken -/
+def cNeed (sh : Sh) (cpc : Pc) (ec ed : Prop) : Prop :=
+  0 < cStage cpc → (cParked cpc = true → sh.cNote = false) →
+    (noDataAt sh.pseq cpc ∨ ec) ∧ (cStage cpc = 2 → sh.done = false ∨ ed)
+
+theorem cStage_holds (cpc : Pc) (h : 0 < cStage cpc) (hp : cParked cpc = false) : holds cpc .cL = true := by
+  cases cpc <;> simp_all [cStage, cParked, holds]
+
+@[simp] theorem pseq_setOwner (sh : Sh) (m : Mx) (o : Option Tid) : (sh.setOwner m o).pseq = sh.pseq := by cases m <;> rfl
+@[simp] theorem pseq_setNote (sh : Sh) (m : Mx) (b : Bool) : (sh.setNote m b).pseq = sh.pseq := by cases m <;> rfl
+@[simp] theorem pseq_unlock (sh : Sh) (m : Mx) : (sh.unlock m).pseq = sh.pseq := by
+  unfold Sh.unlock; split <;> simp
+@[simp] theorem cseq_setOwner (sh : Sh) (m : Mx) (o : Option Tid) : (sh.setOwner m o).cseq = sh.cseq := by cases m <;> rfl
+@[simp] theorem cseq_setNote (sh : Sh) (m : Mx) (b : Bool) : (sh.setNote m b).cseq = sh.cseq := by cases m <;> rfl
+@[simp] theorem cseq_unlock (sh : Sh) (m : Mx) : (sh.unlock m).cseq = sh.cseq := by
+  unfold Sh.unlock; split <;> simp
+@[simp] theorem done_setOwner (sh : Sh) (m : Mx) (o : Option Tid) : (sh.setOwner m o).done = sh.done := by cases m <;> rfl
+@[simp] theorem done_setNote (sh : Sh) (m : Mx) (b : Bool) : (sh.setNote m b).done = sh.done := by cases m <;> rfl
+@[simp] theorem done_unlock (sh : Sh) (m : Mx) : (sh.unlock m).done = sh.done := by
+  unfold Sh.unlock; split <;> simp
+@[simp] theorem note_setOwner (sh : Sh) (m m' : Mx) (o : Option Tid) : (sh.setOwner m o).note m' = sh.note m' := by
+  cases m <;> cases m' <;> rfl
+@[simp] theorem note_setNote (sh : Sh) (m m' : Mx) (b : Bool) :
+    (sh.setNote m b).note m' = if m = m' then b else sh.note m' := by
+  cases m <;> cases m' <;> rfl
+@[simp] theorem note_unlock (sh : Sh) (m m' : Mx) : (sh.unlock m).note m' = sh.note m' := by
+  unfold Sh.unlock; split
+  · rfl
+  · exact note_setOwner _ _ _ _
+
+/-- what one step of a thread does to the data the wake-up argument is about -/
+structure Eff (sh sh' : Sh) (pc pc' : Pc) : Prop where
+  pseq : sh'.pseq = sh.pseq ∨ pendC pc' = true
+  done : sh'.done = sh.done ∨ (pendCd pc' = true)
+  keepC : pendC pc = true → pendC pc' = true ∨ (sh'.note .cL = true ∧ holds pc .cL = true)
+  keepCd : pendCd pc = true → pendCd pc' = true ∨ (sh'.note .cL = true ∧ holds pc .cL = true)
+  noteC : pcRole pc ≠ .cons → sh'.note .cL = sh.note .cL ∨ sh'.note .cL = true
+
+theorem eff_step (cfg : Cfg) (sh sh' : Sh) (me : Tid) (th th' : Th)
+    (hs : tstep cfg sh me th = some (sh', th')) : Eff sh sh' th.pc th'.pc := by
+  have hcr := tstep_crash _ _ _ _ _ hs
+  obtain ⟨pc, prog, cur, slice, filled, view, pending, res⟩ := th
+  cases pc
+  case idle =>
+    simp only [tstep, Bool.false_eq_true, ↓reduceIte, hcr] at hs
+    cases prog with
+    | nil => simp at hs
+    | cons call rest =>
+      simp only [Option.some.injEq, Prod.mk.injEq] at hs
+      obtain ⟨rfl, rfl⟩ := hs
+      exact ⟨Or.inl rfl, Or.inl rfl, nofun, nofun, fun _ => Or.inl rfl⟩
+  case l21 cpos =>
+    simp only [tstep, Bool.false_eq_true, ↓reduceIte, hcr] at hs
+    repeat' split at hs
+    all_goals (
+      simp only [Option.some.injEq, Prod.mk.injEq] at hs
+      obtain ⟨rfl, rfl⟩ := hs
+      exact ⟨Or.inl rfl, Or.inl rfl, nofun, nofun, fun _ => Or.inl rfl⟩)
+  case r62 n cpos =>
+    simp only [tstep, Bool.false_eq_true, ↓reduceIte, hcr] at hs
+    repeat' split at hs
+    all_goals (
+      simp only [Option.some.injEq, Prod.mk.injEq] at hs
+      obtain ⟨rfl, rfl⟩ := hs
+      exact ⟨Or.inl rfl, Or.inl rfl, nofun, nofun, fun _ => Or.inl rfl⟩)
+  case w40 n =>
+    tstep_norm
+    rcases hs with ⟨h1, rfl, rfl⟩ | ⟨h1, rfl, rfl⟩
+    all_goals exact ⟨Or.inl rfl, Or.inl rfl, nofun, nofun, fun _ => Or.inl rfl⟩
+  all_goals tstep_norm
+  all_goals tstep_elim
+  all_goals (clear hcr)
+  all_goals (
+    refine ⟨?_, ?_, ?_, ?_, ?_⟩ <;>
+    first
+    | (simp [pendC, pendCd, holds, pcRole, Th.goto, Th.ret, Sh.bcast, Sh.park, wfsErr]; done)
+    | (simp [pendC, pendCd, holds, pcRole, Th.goto, Th.ret, Sh.bcast, Sh.park, wfsErr, Sh.note]; done)
+    | (simp only [note_unlock]; simp [Sh.note]; done))
+
+/-- a step of another thread `me ≠ c` keeps the consumer's requirement (the stepping thread may
+itself become, stay or stop being the pending broadcaster — it stops only by broadcasting
+under ccond.L, which the waiting consumer holds until it is parked) -/
+theorem cNeed_other (cfg : Cfg) (sh sh' : Sh) (me : Tid) (th th' : Th) (cpc : Pc) (ec ed : Prop)
+    (hme : me ≠ .c) (hrole : pcRole th.pc ≠ .cons)
+    (hown : ∀ m, holds th.pc m = true ↔ sh.owner m = some me)
+    (hcown : holds cpc .cL = true → sh.owner .cL = some .c)
+    (h : cNeed sh cpc (pendC th.pc = true ∨ ec) (pendCd th.pc = true ∨ ed))
+    (hs : tstep cfg sh me th = some (sh', th')) :
+    cNeed sh' cpc (pendC th'.pc = true ∨ ec) (pendCd th'.pc = true ∨ ed) := by
+  obtain ⟨e1, e2, e3, e4, e5⟩ := eff_step cfg sh sh' me th th' hs
+  have e5 := e5 hrole
+  unfold cNeed at h ⊢
+  intro hst hpk
+  have hnote : sh'.note .cL = sh'.cNote := rfl
+  have hnote0 : sh.note .cL = sh.cNote := rfl
+  -- the stepping thread cannot have broadcast unnoticed
+  have hnb : ¬ (sh'.note .cL = true ∧ holds th.pc .cL = true) := by
+    rintro ⟨hn, hh⟩
+    by_cases hp : cParked cpc = true
+    · rw [hnote, hpk hp] at hn; cases hn
+    · have := hcown (cStage_holds cpc hst (by simpa using hp))
+      rw [(hown .cL).mp hh] at this
+      exact hme (by cases this; rfl)
+  have H := h hst (by
+    intro hp
+    have hf := hpk hp
+    rcases e5 with e | e
+    · rw [← hnote0, ← e, hnote]; exact hf
+    · rw [hnote, hf] at e; cases e)
+  refine ⟨?_, ?_⟩
+  · rcases e1 with e | e
+    · rw [e]
+      rcases H.1 with a | a | a
+      · exact Or.inl a
+      · rcases e3 a with b | b
+        · exact Or.inr (Or.inl b)
+        · exact absurd b hnb
+      · exact Or.inr (Or.inr a)
+    · exact Or.inr (Or.inl e)
+  · intro h2
+    rcases e2 with e | e
+    · rw [e]
+      rcases H.2 h2 with a | a | a
+      · exact Or.inl a
+      · rcases e4 a with b | b
+        · exact Or.inr (Or.inl b)
+        · exact absurd b hnb
+      · exact Or.inr (Or.inr a)
+    · exact Or.inr (Or.inl e)
+
+@[simp] theorem cNote_unlock (sh : Sh) (m : Mx) : (sh.unlock m).cNote = sh.cNote := note_unlock sh m .cL
+@[simp] theorem cNote_setNote_c (sh : Sh) (b : Bool) : (sh.setNote .cL b).cNote = b := rfl
+
+theorem cStage_startCall (cfg : Cfg) (th : Th) (call : Call) : cStage (startCall cfg th call).pc = 0 := by
+  cases call <;> simp only [startCall, enterWfs, wfsErr, Th.goto, Th.ret]
+  all_goals (repeat' split)
+  all_goals rfl
+
+theorem cStage_wfsOk (cfg : Cfg) (th : Th) (ppos n : Nat) : cStage (wfsOk cfg th ppos n).pc = 0 := by
+  unfold wfsOk; dsimp only
+  repeat' split
+  all_goals rfl
+
+/-- the consumer's own steps establish and keep its requirement -/
+theorem cNeed_own (cfg : Cfg) (sh sh' : Sh) (me : Tid) (th th' : Th) (ec ed : Prop)
+    (h : cNeed sh th.pc ec ed) (hs : tstep cfg sh me th = some (sh', th')) :
+    cNeed sh' th'.pc ec ed := by
+  have hcr := tstep_crash _ _ _ _ _ hs
+  obtain ⟨pc, prog, cur, slice, filled, view, pending, res⟩ := th
+  simp only at h
+  cases pc
+  case idle =>
+    simp only [tstep, Bool.false_eq_true, ↓reduceIte, hcr] at hs
+    cases prog with
+    | nil => simp at hs
+    | cons call rest =>
+      simp only [Option.some.injEq, Prod.mk.injEq] at hs
+      obtain ⟨rfl, rfl⟩ := hs
+      intro h0; rw [cStage_startCall] at h0; cases h0
+  case l21 cpos =>
+    simp only [tstep, Bool.false_eq_true, ↓reduceIte, hcr] at hs
+    repeat' split at hs
+    all_goals (
+      simp only [Option.some.injEq, Prod.mk.injEq] at hs
+      obtain ⟨rfl, rfl⟩ := hs
+      intro h0; simp [cStage, Th.goto, Th.ret] at h0)
+  case r62 n cpos =>
+    simp only [tstep, Bool.false_eq_true, ↓reduceIte, hcr] at hs
+    repeat' split at hs
+    all_goals (
+      simp only [Option.some.injEq, Prod.mk.injEq] at hs
+      obtain ⟨rfl, rfl⟩ := hs
+      intro h0; simp [cStage, Th.goto, Th.ret] at h0)
+  case w40 n =>
+    tstep_norm
+    rcases hs with ⟨h1, rfl, rfl⟩ | ⟨h1, rfl, rfl⟩
+    all_goals (
+      intro h0
+      simp only [enterWfs, wfsErr, Th.goto, Th.ret] at h0
+      repeat' split at h0
+      all_goals (simp [cStage] at h0))
+  all_goals tstep_norm
+  all_goals tstep_elim
+  all_goals (clear hcr)
+  all_goals (first
+    | (intro h0; rw [cStage_wfsOk] at h0; cases h0)
+    | (intro h0; simp [cStage, Th.goto, Th.ret, wfsErr] at h0; done)
+    | (unfold cNeed at h ⊢
+       simp_all [cStage, cParked, noDataAt, Th.goto, Th.ret, Sh.park, mustWait]))
+
+/-! ### no lost wake-up: the producer waiting for space on pcond -/
+
+/-- the consumer has stored `cseq` and not yet broadcast pcond -/
+def pendP : Pc → Bool
+  | .r65 _ _ _ | .r66 _ _ _ | .k103 _ | .k104 _ => true
+  | _ => false
+/-- a closer has stored `done` and not yet broadcast pcond -/
+def pendPd : Pc → Bool
+  | .x11 | .x12 => true
+  | _ => false
+
+def pStage : Pc → Nat
+  | .s34 _ _ => 1
+  | .s36 _ _ | .s36w _ _ => 2
+  | _ => 0
+def pParked : Pc → Bool
+  | .s36w _ _ => true
+  | _ => false
+/-- the wait condition the producer tested, evaluated on the consumer cursor `cseq` -/
+def noSpaceAt (size cseq : Nat) : Pc → Prop
+  | .s34 n ppos | .s36 n ppos | .s36w n ppos => ppos + n > cseq + size
+  | _ => True
+
+def pNeed (cfg : Cfg) (sh : Sh) (ppc : Pc) (ec ed : Prop) : Prop :=
+  0 < pStage ppc → (pParked ppc = true → sh.pNote = false) →
+    (noSpaceAt cfg.size sh.cseq ppc ∨ ec) ∧ (pStage ppc = 2 → sh.done = false ∨ ed)
+
+theorem pStage_holds (ppc : Pc) (h : 0 < pStage ppc) (hp : pParked ppc = false) : holds ppc .pL = true := by
+  cases ppc <;> simp_all [pStage, pParked, holds]
+
+structure EffP (sh sh' : Sh) (pc pc' : Pc) : Prop where
+  cseq : sh'.cseq = sh.cseq ∨ pendP pc' = true
+  done : sh'.done = sh.done ∨ (pendPd pc' = true)
+  keepP : pendP pc = true → pendP pc' = true ∨ (sh'.note .pL = true ∧ holds pc .pL = true)
+  keepPd : pendPd pc = true → pendPd pc' = true ∨ (sh'.note .pL = true ∧ holds pc .pL = true)
+  noteP : pcRole pc ≠ .prod → sh'.note .pL = sh.note .pL ∨ sh'.note .pL = true
+
+theorem effP_step (cfg : Cfg) (sh sh' : Sh) (me : Tid) (th th' : Th)
+    (hs : tstep cfg sh me th = some (sh', th')) : EffP sh sh' th.pc th'.pc := by
+  have hcr := tstep_crash _ _ _ _ _ hs
+  obtain ⟨pc, prog, cur, slice, filled, view, pending, res⟩ := th
+  cases pc
+  case idle =>
+    simp only [tstep, Bool.false_eq_true, ↓reduceIte, hcr] at hs
+    cases prog with
+    | nil => simp at hs
+    | cons call rest =>
+      simp only [Option.some.injEq, Prod.mk.injEq] at hs
+      obtain ⟨rfl, rfl⟩ := hs
+      exact ⟨Or.inl rfl, Or.inl rfl, nofun, nofun, fun _ => Or.inl rfl⟩
+  case l21 cpos =>
+    simp only [tstep, Bool.false_eq_true, ↓reduceIte, hcr] at hs
+    repeat' split at hs
+    all_goals (
+      simp only [Option.some.injEq, Prod.mk.injEq] at hs
+      obtain ⟨rfl, rfl⟩ := hs
+      exact ⟨Or.inl rfl, Or.inl rfl, nofun, nofun, fun _ => Or.inl rfl⟩)
+  case r62 n cpos =>
+    simp only [tstep, Bool.false_eq_true, ↓reduceIte, hcr] at hs
+    repeat' split at hs
+    all_goals (
+      simp only [Option.some.injEq, Prod.mk.injEq] at hs
+      obtain ⟨rfl, rfl⟩ := hs
+      exact ⟨Or.inl rfl, Or.inl rfl, nofun, nofun, fun _ => Or.inl rfl⟩)
+  case w40 n =>
+    tstep_norm
+    rcases hs with ⟨h1, rfl, rfl⟩ | ⟨h1, rfl, rfl⟩
+    all_goals exact ⟨Or.inl rfl, Or.inl rfl, nofun, nofun, fun _ => Or.inl rfl⟩
+  all_goals tstep_norm
+  all_goals tstep_elim
+  all_goals (clear hcr)
+  all_goals (
+    refine ⟨?_, ?_, ?_, ?_, ?_⟩ <;>
+    first
+    | (simp [pendP, pendPd, holds, pcRole, Th.goto, Th.ret, Sh.bcast, Sh.park, wfsErr]; done)
+    | (simp [pendP, pendPd, holds, pcRole, Th.goto, Th.ret, Sh.bcast, Sh.park, wfsErr, Sh.note]; done)
+    | (simp only [note_unlock]; simp [Sh.note]; done))
+
+theorem pNeed_other (cfg : Cfg) (sh sh' : Sh) (me : Tid) (th th' : Th) (ppc : Pc) (ec ed : Prop)
+    (hme : me ≠ .p) (hrole : pcRole th.pc ≠ .prod)
+    (hown : ∀ m, holds th.pc m = true ↔ sh.owner m = some me)
+    (hpown : holds ppc .pL = true → sh.owner .pL = some .p)
+    (h : pNeed cfg sh ppc (pendP th.pc = true ∨ ec) (pendPd th.pc = true ∨ ed))
+    (hs : tstep cfg sh me th = some (sh', th')) :
+    pNeed cfg sh' ppc (pendP th'.pc = true ∨ ec) (pendPd th'.pc = true ∨ ed) := by
+  obtain ⟨e1, e2, e3, e4, e5⟩ := effP_step cfg sh sh' me th th' hs
+  have e5 := e5 hrole
+  unfold pNeed at h ⊢
+  intro hst hpk
+  have hnote : sh'.note .pL = sh'.pNote := rfl
+  have hnote0 : sh.note .pL = sh.pNote := rfl
+  have hnb : ¬ (sh'.note .pL = true ∧ holds th.pc .pL = true) := by
+    rintro ⟨hn, hh⟩
+    by_cases hp : pParked ppc = true
+    · rw [hnote, hpk hp] at hn; cases hn
+    · have := hpown (pStage_holds ppc hst (by simpa using hp))
+      rw [(hown .pL).mp hh] at this
+      exact hme (by cases this; rfl)
+  have H := h hst (by
+    intro hp
+    have hf := hpk hp
+    rcases e5 with e | e
+    · rw [← hnote0, ← e, hnote]; exact hf
+    · rw [hnote, hf] at e; cases e)
+  refine ⟨?_, ?_⟩
+  · rcases e1 with e | e
+    · rw [e]
+      rcases H.1 with a | a | a
+      · exact Or.inl a
+      · rcases e3 a with b | b
+        · exact Or.inr (Or.inl b)
+        · exact absurd b hnb
+      · exact Or.inr (Or.inr a)
+    · exact Or.inr (Or.inl e)
+  · intro h2
+    rcases e2 with e | e
+    · rw [e]
+      rcases H.2 h2 with a | a | a
+      · exact Or.inl a
+      · rcases e4 a with b | b
+        · exact Or.inr (Or.inl b)
+        · exact absurd b hnb
+      · exact Or.inr (Or.inr a)
+    · exact Or.inr (Or.inl e)
+
+@[simp] theorem pNote_unlock (sh : Sh) (m : Mx) : (sh.unlock m).pNote = sh.pNote := note_unlock sh m .pL
+@[simp] theorem pNote_setNote_p (sh : Sh) (b : Bool) : (sh.setNote .pL b).pNote = b := rfl
+
+theorem pStage_startCall (cfg : Cfg) (th : Th) (call : Call) : pStage (startCall cfg th call).pc = 0 := by
+  cases call <;> simp only [startCall, enterWfs, wfsErr, Th.goto, Th.ret]
+  all_goals (repeat' split)
+  all_goals rfl
+
+theorem pStage_wfsOk (cfg : Cfg) (th : Th) (ppos n : Nat) : pStage (wfsOk cfg th ppos n).pc = 0 := by
+  unfold wfsOk; dsimp only
+  repeat' split
+  all_goals rfl
+
+/-- the producer's own steps establish and keep its requirement -/
+theorem pNeed_own (cfg : Cfg) (sh sh' : Sh) (me : Tid) (th th' : Th) (ec ed : Prop)
+    (h : pNeed cfg sh th.pc ec ed) (hs : tstep cfg sh me th = some (sh', th')) :
+    pNeed cfg sh' th'.pc ec ed := by
+  have hcr := tstep_crash _ _ _ _ _ hs
+  obtain ⟨pc, prog, cur, slice, filled, view, pending, res⟩ := th
+  simp only at h
+  cases pc
+  case idle =>
+    simp only [tstep, Bool.false_eq_true, ↓reduceIte, hcr] at hs
+    cases prog with
+    | nil => simp at hs
+    | cons call rest =>
+      simp only [Option.some.injEq, Prod.mk.injEq] at hs
+      obtain ⟨rfl, rfl⟩ := hs
+      intro h0; rw [pStage_startCall] at h0; cases h0
+  case l21 cpos =>
+    simp only [tstep, Bool.false_eq_true, ↓reduceIte, hcr] at hs
+    repeat' split at hs
+    all_goals (
+      simp only [Option.some.injEq, Prod.mk.injEq] at hs
+      obtain ⟨rfl, rfl⟩ := hs
+      intro h0; simp [pStage, Th.goto, Th.ret] at h0)
+  case r62 n cpos =>
+    simp only [tstep, Bool.false_eq_true, ↓reduceIte, hcr] at hs
+    repeat' split at hs
+    all_goals (
+      simp only [Option.some.injEq, Prod.mk.injEq] at hs
+      obtain ⟨rfl, rfl⟩ := hs
+      intro h0; simp [pStage, Th.goto, Th.ret] at h0)
+  case w40 n =>
+    tstep_norm
+    rcases hs with ⟨h1, rfl, rfl⟩ | ⟨h1, rfl, rfl⟩
+    all_goals (
+      intro h0
+      simp only [enterWfs, wfsErr, Th.goto, Th.ret] at h0
+      repeat' split at h0
+      all_goals (simp [pStage] at h0))
+  all_goals tstep_norm
+  all_goals tstep_elim
+  all_goals (clear hcr)
+  all_goals (first
+    | (intro h0; rw [pStage_wfsOk] at h0; cases h0)
+    | (intro h0; simp [pStage, Th.goto, Th.ret, wfsErr] at h0; done)
+    | (unfold pNeed at h ⊢
+       simp_all [pStage, pParked, noSpaceAt, Th.goto, Th.ret, Sh.park]))
+
+
 end Mqtt.Proofs.Ring
